@@ -280,6 +280,16 @@ class ExprBuilder:
                     return e[2][fields.index(name)]
             if e[0] == "agg" and e[1] == "tuple" and isinstance(name, int) and name < len(e[2]):
                 return e[2][name]
+            if e[0] == "variant" and isinstance(e[1], tuple) and e[1] and e[1][0] == "call" and isinstance(name, (int, str)) and str(name).isdigit() and self.facts is not None:
+                # the payload of a variant a crate classifier returned (`match promotable_decode(p) { Promotable::Vec(shared) => .. }`): what the
+                # classifier put there, with the call's arguments for its parameters
+                cands = self.facts.by_id.get(e[1][1], [])
+                if len(cands) == 1 and cands[0].arg_count == len(e[1][2]):
+                    alts = classifier_alternatives(self.facts, cands[0])
+                    if alts:
+                        pays = [a[3][int(name)] for a in alts if len(a) > 3 and a[0].rsplit("::", 1)[-1] == e[2] and int(name) < len(a[3])]
+                        if pays and all(p_ == pays[0] for p_ in pays):
+                            return subst_params(pays[0], e[1][2])
             if e[0] == "bin" and e[1].endswith("WithOverflow"):
                 # checked arithmetic tuple: .0 is the (wrapping) result, .1 the overflow flag
                 if name == 0:
@@ -1408,9 +1418,16 @@ def classifier_alternatives(facts, cb, depth=0):
     def follow(bi, si, k, pay, d):
         if k != "assign" or d > 4:
             return False
-        if pay["k"] == "agg" and pay.get("ak") == "adt" and "dval" in pay and not pay["ops"]:
+        if pay["k"] == "agg" and pay.get("ak") == "adt" and "dval" in pay:
             rels = [normalize_cmp(c, v) for (_, _, c, v) in guards_at(cb, bi, facts, True)]
-            out.append((pay["adt"] + "::" + pay["variant"], pay["dval"], rels))
+            # variants may carry what was classified (`Promotable::Vec(shared)`): the payload, in the function's parameters
+            ops = ()
+            if pay["ops"]:
+                eb_ = ExprBuilder(cb, facts, inline=False)
+                ops = tuple(canon(eb_.operand(o, (bi, si))) for o in pay["ops"])
+                if any(contains(o, ("unknown", "phi", "icall")) for o in ops):
+                    return False
+            out.append((pay["adt"] + "::" + pay["variant"], pay["dval"], rels, ops))
             return True
         if pay["k"] == "use" and pay["op"]["k"] in ("copy", "move") and not pay["op"]["pl"]["p"]:
             ds = reaching_defs(cb, pay["op"]["pl"]["l"], (bi, si))
